@@ -1,6 +1,6 @@
 (* RunBloom.v — token-level driver for the in-memory Bloom machine (machine 3). *)
-From GX.Model Require Import Base Bloom.
-From GX.Runner Require Import RunCMS.
+From GX.Model Require Import Base Bloom Codec Persist.
+From GX.Runner Require Import RunCMS RunGeneric.
 
 Definition word_bits (w : N) : list bool := map (N.testbit w) (nseq 64).
 Definition words_bits (ws : list N) : list bool := flat_map word_bits ws.
@@ -45,12 +45,23 @@ Definition bloom_step (st : list (option bloom)) (op : tok) : list (option bloom
   | _ => (st, T_INVALID)
   end.
 
-Fixpoint bloom_run (st : list (option bloom)) (ops : list tok) : list tok :=
+End Run.
+
+Definition bloom_mut (s : bloom) (args : list tok) : bloom :=
+  match args with
+  | [TN b] => mkBloom (b_size s) (b_k s) (b_bsize s) (bits_set (b_bits s) b)
+  | _ => s
+  end.
+Definition bloom_gen := @gen_step bloom (fun f => Ok (enc_bloom f)) bloom_write_ret dec_bloom
+                          (fun a b => Ok (bloom_equals a b)) (fun f => Ok (doc_bloom f)) imp_bloom bloom_mut.
+
+Fixpoint bloom_run (orc : oracle) (st : list (option bloom)) (ops : list tok) : list tok :=
   match ops with
   | [] => []
-  | op :: t => let r := bloom_step st op in snd r :: bloom_run (fst r) t
+  | op :: t =>
+      let r := if is_generic op then bloom_gen st op else bloom_step orc st op in
+      snd r :: bloom_run orc (fst r) t
   end.
-End Run.
 
 Definition run_bloom_case (c : list tok) : tok :=
   match c with
